@@ -488,3 +488,76 @@ pub fn con_view_rep(c: &ConRep) -> ConView {
         description: c.description.clone(),
     }
 }
+
+/// Canonical view of a whole instance message: every function as a polynomial, collections in
+/// message order (callers sort when order is not part of the property).
+#[derive(Clone, Debug, PartialEq)]
+pub struct InstView {
+    pub sense: i32,
+    pub objective: Poly,
+    pub constraints: Vec<ConView>,
+    pub removed: Vec<(ConView, String, BTreeMap<String, String>)>,
+    pub dependencies: BTreeMap<u64, Poly>,
+    pub vars: Vec<v1::DecisionVariable>,
+}
+
+pub fn removed_view(r: &v1::RemovedConstraint) -> Result<(ConView, String, BTreeMap<String, String>), String> {
+    let c = r.constraint.as_ref().ok_or_else(|| "RemovedConstraint without constraint".to_string())?;
+    Ok((
+        con_view(c)?,
+        r.removed_reason.clone(),
+        r.removed_reason_parameters.iter().map(|(k, v)| (k.clone(), v.clone())).collect(),
+    ))
+}
+
+pub fn inst_view(i: &v1::Instance) -> Result<InstView, String> {
+    Ok(InstView {
+        sense: i.sense,
+        objective: poly_of_opt_function(&i.objective)?,
+        constraints: i.constraints.iter().map(con_view).collect::<Result<_, _>>()?,
+        removed: i.removed_constraints.iter().map(removed_view).collect::<Result<_, _>>()?,
+        dependencies: i
+            .decision_variable_dependency
+            .iter()
+            .map(|(k, f)| Ok((*k, poly_of_function(f)?)))
+            .collect::<Result<_, String>>()?,
+        vars: i.decision_variables.clone(),
+    })
+}
+
+pub fn inst_view_rep(i: &InstRep) -> InstView {
+    InstView {
+        sense: i.sense,
+        objective: i.objective_poly(),
+        constraints: i.constraints.iter().map(con_view_rep).collect(),
+        removed: i
+            .removed
+            .iter()
+            .map(|r| (con_view_rep(&r.constraint), r.reason.clone(), r.parameters.iter().cloned().collect()))
+            .collect(),
+        dependencies: i.dependencies.iter().map(|(k, f)| (*k, f.poly())).collect(),
+        vars: i.vars.iter().map(|v| v.to_msg()).collect(),
+    }
+}
+
+/// IDs mentioned anywhere in the functions of a real instance message.
+pub fn ids_in_instance(i: &v1::Instance) -> BTreeSet<u64> {
+    let mut s = BTreeSet::new();
+    if let Some(f) = &i.objective {
+        s.extend(ids_of_function(f));
+    }
+    for c in &i.constraints {
+        if let Some(f) = &c.function {
+            s.extend(ids_of_function(f));
+        }
+    }
+    for r in &i.removed_constraints {
+        if let Some(f) = r.constraint.as_ref().and_then(|c| c.function.as_ref()) {
+            s.extend(ids_of_function(f));
+        }
+    }
+    for f in i.decision_variable_dependency.values() {
+        s.extend(ids_of_function(f));
+    }
+    s
+}
